@@ -106,7 +106,11 @@ def judge(chk, j, stats):
             failed = True
             break
     # location accuracy on the claimed class
-    if not c.get("swagger") and not has_single_items_or_schema_deps(c["schema"]) and not c.get("usenumber"):
+    # the class of C17_decided_errors_designate_their_place, decided in Coq on the decoded schema (no single-schema items, no
+    # schema dependency below the root or the definitions), or the same class read off the JSON text
+    if j.get("located_class") and not c.get("swagger"):
+        stats["located_by_theorem"] = stats.get("located_by_theorem", 0) + 1
+    if not c.get("swagger") and (j.get("located_class") or not has_single_items_or_schema_deps(c["schema"])) and not c.get("usenumber"):
         stats["located"] += 1
         req = set()
         required_names(c["schema"], req)
@@ -154,7 +158,7 @@ def run_cases(chk, binp, cases, pf_ok, pf):
                 "MatchCount, number of errors, composite error of the one-shot call; non-trivial = invalid verdict on a schema with >= 2 "
                 "keywords or nesting; distinct by (schema, instance, root)",
         "samples": [J[i]["case"] for i in (0, len(J) // 2, len(J) - 1)],
-        "location_checked": stats["located"], "tie_mismatches": len(tie),
+        "location_checked": stats["located"], "cases_inside_the_located_class_of_the_theorem": stats.get("located_by_theorem", 0), "tie_mismatches": len(tie),
         "error_code_histogram": {str(k): v for k, v in sorted(codes.items())},
     })
     chk.assumptions = ["location accuracy is checked only where the property claims it (no single-schema items, no schema dependencies)"]
